@@ -283,9 +283,14 @@ var topics = []string{"a/b", "a", "b", "a/c", "c/b"}
 
 func TestRandom(t *testing.T) {
 	rapid.Check(t, func(t *rapid.T) {
-		c := Case{Nodes: rapid.IntRange(2, 3).Draw(t, "nodes")}
+		// the statement speaks of 2-3 nodes; a publish with three or four remote destinations walks
+		// the same loop further
+		c := Case{Nodes: rapid.SampledFrom([]int{2, 3, 2, 3, 2, 3, 4, 5}).Draw(t, "nodes")}
 		c.PubNode = rapid.IntRange(0, c.Nodes-1).Draw(t, "pubNode")
 		ns := rapid.IntRange(1, 5).Draw(t, "nsubs")
+		if c.Nodes > 3 {
+			ns = rapid.IntRange(c.Nodes-1, 7).Draw(t, "nsubsMany")
+		}
 		for i := 0; i < ns; i++ {
 			c.Subs = append(c.Subs, Sub{Node: rapid.IntRange(0, c.Nodes-1).Draw(t, "node"), Filter: rapid.SampledFrom(filters).Draw(t, "filter"),
 				QoS: rapid.IntRange(0, 1).Draw(t, "qos"), Known: rapid.IntRange(0, 3).Draw(t, "known") > 0})
